@@ -43,3 +43,19 @@ func VerifDnlHas(t *Thread, name enc.Name, nonce uint32) bool {
 
 // VerifDnl returns the thread's dead nonce list.
 func VerifDnl(t *Thread) *table.DeadNonceList { return t.deadNonceList }
+
+// VerifDequeue takes one packet a link service has queued for this thread off its queues without
+// processing it (Interests first). ok is false when both queues are empty.
+func VerifDequeue(t *Thread) (pkt *defn.Pkt, isInterest bool, ok bool) {
+	select {
+	case p := <-t.pendingInterests:
+		return p, true, true
+	default:
+	}
+	select {
+	case p := <-t.pendingDatas:
+		return p, false, true
+	default:
+	}
+	return nil, false, false
+}
